@@ -111,6 +111,15 @@ def check_degree_passthrough(model, rep):
                 rep.ob('R09.6', f.key, f.where(s_), ok, f'`{stmt_text(s_)[:50]}` changes the degree only for the bezier scheme' if ok else
                        f'`{stmt_text(s_)[:50]}` changes the requested degree for schemes other than bezier: the sub-references get a Gauss rule of lower degree than requested, so polynomials of the '
                        'requested degree are no longer integrated exactly (the weights still sum to the volume)', statement='degree-unchanged')
+        # a per-direction degree tuple handed to a rule of TOTAL degree (simplex Gauss) is reduced by its sum: a product of polynomials of degrees
+        # d1, d2 has total degree d1 + d2; max/min/first entry under-integrate
+        for c_ in ast.walk(f.node):
+            if isinstance(c_, ast.Call) and len(c_.args) >= 1 and src(c_.args[0]) == 'degree' and src(c_.func) in ('max', 'min', 'sum', 'builtins.max', 'builtins.min', 'builtins.sum', 'numpy.max', 'numpy.sum', 'numpy.min', 'numpy.prod', 'numpy.mean'):
+                ok = src(c_.func) in ('sum', 'builtins.sum', 'numpy.sum')
+                rep.ob('R09.6', f.key, f.where(c_), ok, 'a degree tuple is reduced to the total degree by its sum' if ok else
+                       f'`{src(c_)}` reduces the per-direction degrees to less than their sum: a Gauss rule of total degree sum(degree) is needed to integrate a product of polynomials of those degrees exactly', statement='degree-total')
+            if isinstance(c_, ast.Subscript) and src(c_.value) == 'degree' and isinstance(c_.slice, ast.Constant) and f.cls is not None and f.cls.name.startswith('Simplex'):
+                rep.ob('R09.6', f.key, f.where(c_), False, f'`{src(c_)}` picks one entry of the per-direction degrees for a rule of total degree', statement='degree-total')
     rep.ob('R09.6', 'element:getpoints', mod.relpath + ':1', True, f'{n} getpoints implementations inspected', statement='getpoints-inspected')
     if n < 6:
         raise AnalysisError(f'only {n} getpoints implementations found in element.py')
@@ -323,5 +332,16 @@ def run(model, rep, tier):
     check_tensor_points(model, rep)
     check_degree_passthrough(model, rep)
     check_degree_split(model, rep)
+    rep.rule('R09.8', 'take_elements and _offsets never return on counts alone: the selection / the point counts are read element by element (rules/shortcuts.py)')
+    from rules import shortcuts
+    nte = 0
+    for c in sorted(model.classes.values(), key=lambda c: c.key):
+        mem = c.members.get('take_elements')
+        if c.module.short != 'sample' or mem is None or mem.func is None or c.name == '_Empty':    # the empty sample is its own sub-sample
+            continue
+        nte += shortcuts.check(model, rep, 'R09.8', mem.func.key, why='as many indices as elements is not the identity selection (a permutation or repetition has the same count): the sub-sample would silently be the whole sample in its original order')
+    shortcuts.check(model, rep, 'R09.8', 'sample:_offsets', param='pointsseq', why='a total that equals count x first says nothing about the individual point counts: offsets of a non-uniform sequence would be wrong')
+    if nte < 4:
+        raise AnalysisError(f'R09.8: only {nte} take_elements returns found')
     rep.require('R09.1', 20)
     rep.require('R09.2', 5)
